@@ -86,7 +86,15 @@ def dump_heap(heap) -> str:
 def py_scalar(rng, k):
     """a Python scalar equal to the Gaussian integer k, of a random numeric type"""
     re, im = k
+    r = rng.random()
+    if r < 0.15:
+        # numpy scalars that ARE Python floats / complex numbers (np.float64 <: float, np.complex128 <: complex)
+        import numpy as np
+
+        return np.float64(re) if im == 0 and rng.random() < 0.5 else np.complex128(complex(re, im))
     if im == 0:
+        if re in (0, 1) and r < 0.2:
+            return bool(re)  # bool <: int
         return rng.choice([int(re), float(re), complex(re, 0)])
     return complex(re, im)
 
@@ -158,7 +166,11 @@ def label_string(rng, ps, fancy=True) -> str:
     return s
 
 
-ROUTES = ["set", "list", "gen", "ctor", "lists", "provider", "enum", "str", "strplain"]
+# the first N_RAW_ROUTES routes hand the pair list over unchanged (also used for invalid pair lists);
+# the others exist for valid labels only
+ROUTES = ["set", "list", "gen", "ctor", "lists", "provider", "enum", "tuples", "of", "str", "strplain", "dictitems", "relabel",
+          "pickle", "deepcopy"]
+N_RAW_ROUTES = 9
 
 
 BUILD_FAILURES = []
@@ -198,6 +210,21 @@ def build_label_raw(rng, ps, route):
         return pauli_label(_Provider([i for i, _ in sh], [p for _, p in sh]))
     if route == "enum":
         return pauli_label({(i, SinglePauli(p)) for i, p in sh})
+    if route == "tuples":  # Collections other than lists
+        return PauliLabel.from_index_and_pauli_list(tuple(i for i, _ in sh), tuple(p for _, p in sh))
+    if route == "of":  # the static entry point behind pauli_label(provider)
+        return PauliLabel.of(_Provider(tuple(i for i, _ in sh), [p for _, p in sh]))
+    if route == "dictitems":
+        return pauli_label(dict(sh).items())
+    if route == "relabel":  # a label handed to the factory / constructor again
+        l0 = PauliLabel(frozenset(sh))
+        return pauli_label(l0) if rng.random() < 0.5 else PauliLabel(l0)
+    if route in ("pickle", "deepcopy"):
+        import copy
+        import pickle
+
+        l0 = pauli_label(sh)
+        return pickle.loads(pickle.dumps(l0)) if route == "pickle" else copy.deepcopy(l0)
     if route == "str":
         if not ps:
             return PauliLabel()
@@ -245,7 +272,7 @@ def corr_labels(ctx: Ctx, reqs, metas):
         elif kind < 0.2:  # invalid id
             ps.append((rng.choice(pool), rng.choice([0, 4, 5, 7])))
             valid = False
-        route = rng.choice(ROUTES[:7])
+        route = rng.choice(ROUTES[:N_RAW_ROUTES])
         ctx.count("label_route", route)
         ctx.count("label_kind", "valid" if valid else "dup-or-badid")
         from quri_parts.core.operator import pauli_label
@@ -552,8 +579,17 @@ class Program:
             op = Operator(dict(real_items))
         else:
             op = Operator()
+            if rng.random() < 0.5:
+                try:
+                    from quri_parts.core.operator import zero
+
+                    op = zero()
+                except ImportError:
+                    self.log.append("zero() is missing")
             for l, c in real_items:
                 op[l] = c
+        if rng.random() < 0.1:
+            op = Operator(op)
         r = ref.Ref()
         for ps, c in items:
             ref_set(r, ps, c)
@@ -953,14 +989,20 @@ def corr_matrices(ctx: Ctx, progs, reqs, metas):
         l = build_label(rng, ps, rng.choice(ROUTES))
         need = max([i + 1 for i, _ in ps] + [0])
         nq = rng.choice([None, need, need + 1, max(need - 1, 0), 0])
+        fmt = rng.choice([None, None] + fmts)
         try:
-            arr = get_sparse_matrix(l, nq).toarray()
+            if fmt is None:
+                arr = get_sparse_matrix(l, nq).toarray()
+            elif rng.random() < 0.5:
+                arr = get_sparse_matrix(l, nq, fmt).toarray()
+            else:
+                arr = get_sparse_matrix(l, n_qubits=nq, format=fmt).toarray()
             dim = arr.shape[0]
             real = f"ok {dim.bit_length() - 1} " + ",".join(show_k_real(arr[a][b]) for a in range(dim) for b in range(dim))
         except Exception as e:  # noqa: BLE001
             real = "err " + err_kind(e)
         reqs.append(f"c05labmat {enc_pairs(ps)} {'-' if nq is None else nq}")
-        metas.append(("labmat", {"pairs": ps, "n_qubits": nq}, real))
+        metas.append(("labmat", {"pairs": ps, "n_qubits": nq, "format": fmt}, real))
 
 
 def compare_simple(ctx: Ctx, metas, resp):
@@ -1235,6 +1277,659 @@ def validate(ctx: Ctx, budget_s: float):
 
 
 # ---------------------------------------------------------------------------
+# argument forms, alternative entry points, histories, documented error branches (independent oracle, REAL code only)
+# ---------------------------------------------------------------------------
+def _desc(r):
+    return enc_items([(sorted(l), c) for l, c in r.items()])
+
+
+def _ref_matrix(r, nq):
+    return ref.op_matrix([(tuple(sorted(l)), c) for l, c in r.items()], nq)
+
+
+def _api(ctx: Ctx, module: str, names):
+    """public names of the real code; a missing one is a correspondence difference, not a crash of the check"""
+    import importlib
+
+    out = []
+    try:
+        mod = importlib.import_module(module)
+    except Exception as e:  # noqa: BLE001
+        ctx.disagree("api", {"module": module}, f"import fails: {type(e).__name__}: {e}", "module exists")
+        return None
+    for n in names:
+        if not hasattr(mod, n):
+            ctx.disagree("api", {"module": module, "name": n}, "missing", "public name exists")
+            return None
+        out.append(getattr(mod, n))
+    return out
+
+
+def _section(ctx: Ctx, name: str, fn):
+    """run one group of checks; an exception that escapes the group (a helper renamed, an unexpected return type) is recorded as a
+    correspondence difference so that the rest of the check still runs"""
+    with ctx.timed("forms_" + name):
+        try:
+            fn(ctx)
+        except InfraError:
+            raise
+        except Exception as e:  # noqa: BLE001
+            import traceback
+
+            ctx.disagree("forms-" + name, {"section": name}, f"{type(e).__name__}: {e}", "the section runs to completion",)
+            ctx.notes.append("forms-" + name + ": " + traceback.format_exc()[-600:])
+
+
+def forms_operands(ctx: Ctx):
+    """`op (+|-|*|/) x` for an x that is not an Operator / not a number: rejected with an error and `op` left unchanged, or - should the
+    library ever accept the operand - the result must be the matrix operation on what x denotes (scalar s -> s*I, label -> its matrix,
+    plain dict -> the operator with these terms)"""
+    import operator as pyop
+
+    from quri_parts.core.operator import Operator
+
+    rng = ctx.rng
+    nq, pool = 3, [0, 1, 2]
+    eye = ref.op_matrix([((), (1, 0))], nq)
+    for _ in range(ctx.n(60, 600)):
+        (a, ra), (b, rb) = rand_real_op(rng, pool), rand_real_op(rng, pool)
+        A, B = _ref_matrix(ra, nq), _ref_matrix(rb, nq)
+        ps = rand_valid_pairs(rng, pool)
+        lab = build_label(rng, ps, rng.choice(ROUTES))
+        L = ref.op_matrix([(tuple(sorted(ps)), (1, 0))], nq)
+        k = rng.choice(SCALARS)
+        others = [
+            ("scalar", py_scalar(rng, k), ref.mat_scale(eye, k)),
+            ("label", lab, L),
+            ("dict", dict(b), B),
+            ("pairlist", list(b.items()), None),
+            ("None", None, None),
+            ("str", "X0", None),
+        ]
+        for oname, x, X in others:
+            for sym in ["+", "-", "r+", "r-", "+=", "-=", "*", "r*", "/", "r/", "/="]:
+                if oname == "scalar" and sym in ("*", "r*", "/", "/="):
+                    continue  # genuine scalar operations, judged elsewhere
+                if oname in ("str", "pairlist") and sym in ("*", "r*"):
+                    continue  # sequence repetition protocol of str / list answers first
+                target = a.copy()
+                before = dump_op(target)
+                inp = {"a": _desc(ra), "operand": oname, "value": repr(x)[:80], "op": sym}
+                ctx.count("operand_forms", f"{oname} {sym}")
+                ctx.traces += 1
+                try:
+                    if sym == "+":
+                        r = target + x
+                    elif sym == "-":
+                        r = target - x
+                    elif sym == "r+":
+                        r = x + target
+                    elif sym == "r-":
+                        r = x - target
+                    elif sym == "+=":
+                        r = pyop.iadd(target, x)
+                    elif sym == "-=":
+                        r = pyop.isub(target, x)
+                    elif sym == "*":
+                        r = target * x
+                    elif sym == "r*":
+                        r = x * target
+                    elif sym == "/":
+                        r = target / x
+                    elif sym == "r/":
+                        r = x / target
+                    else:
+                        r = pyop.itruediv(target, x)
+                except Exception:  # noqa: BLE001  rejected: the left operand must be untouched
+                    if dump_op(target) != before:
+                        ctx.witness("rejected-operand-mutates", f"`a {sym} <{oname}>` raises but leaves a changed", inp,
+                                    {"before": before, "after": dump_op(target)})
+                    continue
+                # accepted: judge by denotation
+                want = None
+                if X is not None:
+                    if sym in ("+", "r+", "+="):
+                        want = ref.mat_add(A, X)
+                    elif sym in ("-", "-="):
+                        want = ref.mat_add(A, X, -1)
+                    elif sym == "r-":
+                        want = ref.mat_add(X, A, -1)
+                    elif sym == "*":
+                        want = ref.mat_mul(A, X)
+                    elif sym == "r*":
+                        want = ref.mat_mul(X, A)
+                got = real_dense(r, nq) if isinstance(r, Operator) else None
+                if want is None or got != want:
+                    ctx.witness("operand-form-mishandled", f"`a {sym} <{oname}>` is accepted and the result is not the matrix operation", inp,
+                                {"result": (dump_op(r) if isinstance(r, Operator) else repr(r))[:300]})
+
+
+def forms_errors(ctx: Ctx):
+    """documented rejections: anything that is not a string / provider / iterable for pauli_label, anything that is not a label or an
+    Operator for the export, an unknown sparse format, a Trotter order below 1"""
+    from quri_parts.core.operator import Operator, get_sparse_matrix, pauli_label, trotter_suzuki_decomposition
+
+    rng = ctx.rng
+    for bad in [5, None, 1.5, object(), True, 3 + 0j]:
+        ctx.traces += 1
+        try:
+            r = pauli_label(bad)
+        except Exception:  # noqa: BLE001
+            continue
+        ctx.witness("pauli-label-accepts-non-label", "pauli_label(x) returns a label for an x that is no string, provider or iterable",
+                    {"x": repr(bad)}, {"result": repr(r)[:100]})
+    x0 = pauli_label("X0")
+    op = Operator({x0: 2.0, pauli_label("Z1"): 1.0})
+    A = ref.op_matrix([(((0, 1),), (2, 0)), (((1, 3),), (1, 0))], 2)
+    for bad in [dict(op), frozenset({(0, 1)}), None, "X0", [(x0, 1.0)], 2.0]:
+        ctx.traces += 1
+        try:
+            r = get_sparse_matrix(bad, 2)
+        except Exception:  # noqa: BLE001
+            continue
+        ctx.witness("export-accepts-non-operator", "get_sparse_matrix(x) returns a matrix for an x that is neither a PauliLabel nor an Operator",
+                    {"x": repr(bad)[:100]}, {"result": repr(r)[:100]})
+    for fmt in ["xyz", "", "CSC", "array", None, 0]:
+        for obj, what in [(op, "operator"), (x0, "label")]:
+            ctx.traces += 1
+            try:
+                arr = get_sparse_matrix(obj, 2, fmt).toarray()
+            except Exception:  # noqa: BLE001
+                continue
+            want = A if obj is op else ref.op_matrix([(((0, 1),), (1, 0))], 2)
+            got = [[gauss(v) for v in row] for row in arr.tolist()]
+            if got != want:
+                ctx.witness("export-unknown-format", "get_sparse_matrix with an unsupported format name returns a wrong matrix instead of raising",
+                            {"format": repr(fmt), "object": what})
+    for order in [0, -1, -7]:
+        for o in [op, Operator({x0: 1.0}), Operator()]:
+            ctx.traces += 1
+            try:
+                r = trotter_suzuki_decomposition(o, rng.choice([1.0, 0.5j]), order)
+            except Exception:  # noqa: BLE001
+                continue
+            ctx.witness("trotter-order-not-rejected", "trotter_suzuki_decomposition accepts an order below 1", {"order": order, "terms": len(o)},
+                        {"result": repr(r)[:200]})
+
+
+def forms_accessors(ctx: Ctx):
+    """pauli_at / qubit_indices / index_and_pauli_id_list / pauli_name / n_terms agree with the finite map the label (operator) is"""
+    from quri_parts.core.operator import Operator, PauliLabel, SinglePauli, pauli_label
+
+    got = _api(ctx, "quri_parts.core.operator.pauli", ["pauli_name"])
+    rng = ctx.rng
+    if got:
+        (pauli_name,) = got
+        for p in (1, 2, 3):
+            for arg in (p, SinglePauli(p)):
+                try:
+                    nm = pauli_name(arg)
+                except Exception as e:  # noqa: BLE001
+                    nm = f"{type(e).__name__}"
+                if nm != "XYZ"[p - 1] or str(pauli_label([(7, p)])) != "XYZ"[p - 1] + "7":
+                    ctx.witness("pauli-name", "pauli_name(p) is not the letter of the Pauli matrix p", {"p": repr(arg)}, {"got": nm})
+    for _ in range(ctx.n(300, 3000)):
+        pool = rng.choice([[0, 1, 2, 3], [0, 5, 9, 63, 64, 65, 1234567]])
+        ps = rand_valid_pairs(rng, pool)
+        route = rng.choice(ROUTES)
+        l = build_label(rng, ps, route)
+        d = dict(ps)
+        inp = {"pairs": ps, "route": route}
+        ctx.traces += 1
+        ctx.count("accessor_label_size", str(len(ps)))
+        try:
+            at = {i: l.pauli_at(i) for i in set(pool) | {max(pool) + 1}}
+            if any(at[i] != d.get(i) for i in at):
+                ctx.witness("pauli-at", "label.pauli_at(i) differs from the Pauli the label carries on qubit i (None where it carries none)",
+                            inp, {"pauli_at": {i: (None if v is None else int(v)) for i, v in at.items()}})
+            qi = list(l.qubit_indices())
+            if sorted(qi) != sorted(d):
+                ctx.witness("qubit-indices", "label.qubit_indices() is not the set of qubits the label acts on", inp, {"got": sorted(qi)})
+            if ps:
+                il, pl = l.index_and_pauli_id_list
+                if len(il) != len(pl) or sorted(zip(il, pl)) != sorted(ps):
+                    ctx.witness("index-id-lists", "label.index_and_pauli_id_list is not the pair list of the label", inp,
+                                {"got": [list(map(int, il)), list(map(int, pl))]})
+                back = PauliLabel.from_index_and_pauli_list(il, pl)
+                if back != l or hash(back) != hash(l) or str(back) != str(l):
+                    ctx.witness("index-id-lists", "from_index_and_pauli_list(*l.index_and_pauli_id_list) differs from l", inp)
+        except Exception as e:  # noqa: BLE001
+            ctx.witness("raises", f"a label accessor raises {type(e).__name__}: {e}", inp)
+        if rng.random() < 0.3:
+            op, want = rand_real_op(rng, pool)
+            try:
+                nt = op.n_terms
+            except Exception as e:  # noqa: BLE001
+                nt = f"{type(e).__name__}"
+            if nt != len(op) or nt != len(list(op.items())):
+                ctx.witness("n-terms", "op.n_terms is not the number of stored terms", {"op": _desc(want)}, {"n_terms": nt, "len": len(op)})
+    # the identity label has no index / id list form in the unchanged tree (zip(*()) cannot be unpacked); recorded, not judged:
+    # the property statement speaks of constructing labels from lists, not of exporting them
+    try:
+        r = PauliLabel().index_and_pauli_id_list
+        ctx.extra["identity_index_id_lists"] = repr(r)[:60]
+    except Exception as e:  # noqa: BLE001
+        ctx.extra["identity_index_id_lists"] = f"raises {type(e).__name__}: {e}"[:100]
+
+
+def forms_predicates(ctx: Ctx):
+    """is_ops_close / is_hermitian / truncate on exactly representable coefficients: equality and hermiticity of the denoted
+    matrices, removal of exactly the terms below the threshold"""
+    got = _api(ctx, "quri_parts.core.operator", ["is_ops_close", "is_hermitian", "truncate", "Operator"])
+    if not got:
+        return
+    is_ops_close, is_hermitian, truncate, Operator = got
+    rng = ctx.rng
+    nq, pool = 3, [0, 1, 2]
+    for _ in range(ctx.n(250, 3000)):
+        a, ra = rand_real_op(rng, pool)
+        # explicit zero entries are legal stored values and denote nothing
+        if rng.random() < 0.3:
+            ps = rand_valid_pairs(rng, pool)
+            if frozenset(ps) not in ra:
+                a[build_label(rng, ps, rng.choice(ROUTES))] = py_scalar(rng, (0, 0))
+        kind = rng.choice(["same-reordered", "one-coefficient", "extra-term", "missing-term", "random", "herm-made"])
+        items = list(ra.items())
+        rng.shuffle(items)
+        rb = ref.Ref(dict(items))
+        if kind == "one-coefficient" and items:
+            l, c = rng.choice(items)
+            rb[l] = ref.gadd(c, rng.choice([(1, 0), (0, 1), (-1, 0), (0, -1), (1, 1)]))
+            if rb[l] == (0, 0):
+                del rb[l]
+        elif kind == "extra-term":
+            rb.acc(frozenset(rand_valid_pairs(rng, pool)), rand_coef(rng, False))
+        elif kind == "missing-term" and items:
+            del rb[rng.choice(items)[0]]
+        elif kind == "random":
+            rb = rand_real_op(rng, pool)[1]
+        b = Operator()
+        order = list(rb.items())
+        rng.shuffle(order)
+        for l, c in order:
+            b[build_label(rng, sorted(l), rng.choice(ROUTES))] = py_scalar(rng, c)
+        if rng.random() < 0.3:
+            b[build_label(rng, [(0, 1), (1, 1), (2, 1)], "set")] = b.get(build_label(rng, [(0, 1), (1, 1), (2, 1)], "set"), 0)
+        if kind == "herm-made":
+            a = a + a.hermitian_conjugated() if rng.random() < 0.5 else a * a.hermitian_conjugated()
+            ra = ref.Ref.of((canon_label(l), gauss(c)) for l, c in a.items())
+        A, B = _ref_matrix(ra, nq), _ref_matrix(rb, nq)
+        inp = {"a": dump_op(a)[:200], "b": dump_op(b)[:200], "kind": kind}
+        ctx.traces += 1
+        ctx.count("predicate_cases", kind)
+        try:
+            for x, y, X, Y, nm in [(a, b, A, B, "a,b"), (b, a, B, A, "b,a"), (a, a.copy(), A, A, "a,copy")]:
+                r = is_ops_close(x, y)
+                if bool(r) != (X == Y):
+                    ctx.witness("is-ops-close", f"is_ops_close({nm}) = {r} but the denoted matrices are {'equal' if X == Y else 'different'}", inp)
+            h = is_hermitian(a)
+            if bool(h) != (A == ref.mat_dagger(A)):
+                ctx.witness("is-hermitian", f"is_hermitian(a) = {h} but matrix(a) {'equals' if A == ref.mat_dagger(A) else 'differs from'} "
+                            "its conjugate transpose", inp)
+            # truncate: default threshold removes exactly the stored zeros; an integer threshold t keeps |c| >= t
+            t = rng.choice([None, None, 1, 2, 3, 5])
+            before = dump_op(a)
+            tr = truncate(a) if t is None else (truncate(a, t) if rng.random() < 0.5 else truncate(a, atol=float(t)))
+            keep = [(canon_label(l), gauss(c)) for l, c in a.items() if (gauss(c)[0] ** 2 + gauss(c)[1] ** 2) >= (1 if t is None else t * t)]
+            gotk = [(canon_label(l), gauss(c)) for l, c in tr.items()]
+            if gotk != keep:
+                ctx.witness("truncate", f"truncate(a{'' if t is None else ', ' + str(t)}) does not keep exactly the terms with |coefficient| >= threshold "
+                            "(in stored order)", inp, {"got": str(gotk)[:300], "want": str(keep)[:300]})
+            tr.add_term(build_label(rng, [(0, 3), (1, 3), (2, 3)], "set"), 5)
+            tr.constant = 9
+            if tr is a or dump_op(a) != before:
+                ctx.witness("result-aliases-operand", "truncate(a) shares state with a", inp)
+        except Exception as e:  # noqa: BLE001
+            ctx.witness("raises", f"is_ops_close / is_hermitian / truncate raises {type(e).__name__}: {e}", inp)
+
+
+def _split_operator_string(s: str):
+    """terms of `str(op)` as documented: `<coefficient>*<label>` joined by ` + `"""
+    out = []
+    for t in s.split(" + "):
+        c, star, l = t.partition("*")
+        if not star:
+            return None
+        out.append((c, l))
+    return out
+
+
+def forms_operator_str(ctx: Ctx):
+    """str(op): documented form `0.1j*X0 + 0.2*X1 Y2` - every stored term once, in stored order, coefficient and label readable back"""
+    from quri_parts.core.operator import Operator, pauli_label
+
+    rng = ctx.rng
+    doc = Operator({pauli_label("X0"): 0.1j})
+    doc[pauli_label("X1 Y2")] = 0.2
+    if str(doc) != "0.1j*X0 + 0.2*X1 Y2":
+        ctx.witness("operator-str", "str(op) differs from the documented example", {"op": "0.1j*X0 + 0.2*X1 Y2"}, {"got": str(doc)})
+    for _ in range(ctx.n(150, 2000)):
+        pool = rng.choice([[0, 1, 2], [3, 10, 11, 64, 100]])
+        op, want = rand_real_op(rng, pool)
+        if rng.random() < 0.3:
+            op.constant = py_scalar(rng, rand_coef(rng))
+        ctx.traces += 1
+        inp = {"op": dump_op(op)[:300]}
+        try:
+            s = str(op)
+            terms = _split_operator_string(s) if len(op) else ([] if s == "" else None)
+            ok = terms is not None and len(terms) == len(op)
+            if ok:
+                for (cs, ls), (l, c) in zip(terms, op.items()):
+                    back = {"True": 1, "False": 0}[cs] if cs in ("True", "False") else complex(cs)  # bool <: int is a legal coefficient
+                    if back != complex(c) or ls != str(l) or (len(l) and pauli_label(ls) != l):
+                        ok = False
+            if not ok:
+                ctx.witness("operator-str", "str(op) is not the stored terms `coefficient*label` joined by ' + ' in stored order", inp, {"str": s[:300]})
+        except Exception as e:  # noqa: BLE001
+            ctx.witness("operator-str", f"reading str(op) back fails: {type(e).__name__}: {e}", inp)
+
+
+def forms_commute(ctx: Ctx):
+    """bsv_bitwise_commute(bsv(p), bsv(q)) <=> on every qubit the two single-qubit factors commute (2x2 matrices), which implies
+    that the operators commute"""
+    got = _api(ctx, "quri_parts.core.operator.representation", ["bsv_bitwise_commute", "pauli_label_to_bsv", "BinarySymplecticVector"])
+    if not got:
+        return
+    bsv_bitwise_commute, pauli_label_to_bsv, BSV = got
+    from quri_parts.core.operator import Operator, commutator
+
+    comm1 = {(x, y): ref._mm(ref.M1[x], ref.M1[y]) == ref._mm(ref.M1[y], ref.M1[x]) for x in range(4) for y in range(4)}
+    rng = ctx.rng
+    import itertools
+
+    cases = []
+    for ids_p in itertools.product(range(4), repeat=2):
+        for ids_q in itertools.product(range(4), repeat=2):
+            cases.append(([(i, p) for i, p in enumerate(ids_p) if p], [(i, p) for i, p in enumerate(ids_q) if p]))
+    for _ in range(ctx.n(300, 4000)):
+        pool = rng.choice([[0, 1, 2], [0, 1, 2, 3, 4], [5, 31, 32, 63, 64, 65, 130]])
+        cases.append((rand_valid_pairs(rng, pool, 4), rand_valid_pairs(rng, pool, 4)))
+    for p, q in cases:
+        dp, dq = dict(p), dict(q)
+        want = all(comm1[(dp.get(i, 0), dq.get(i, 0))] for i in set(dp) | set(dq))
+        lp, lq = build_label(rng, p, rng.choice(ROUTES)), build_label(rng, q, rng.choice(ROUTES))
+        inp = {"p": p, "q": q}
+        ctx.traces += 1
+        ctx.count("bitwise_commute", str(want))
+        try:
+            bp, bq = pauli_label_to_bsv(lp), pauli_label_to_bsv(lq)
+            if rng.random() < 0.3:  # hand-made vectors (default phase), tuples compare equal to what the converter returns
+                bp = BSV(x=sum(1 << i for i, o in p if o in (1, 2)), z=sum(1 << i for i, o in p if o in (2, 3)))
+            r1, r2 = bsv_bitwise_commute(bp, bq), bsv_bitwise_commute(bq, bp)
+            if bool(r1) != want or bool(r2) != want:
+                ctx.witness("bitwise-commute", f"bsv_bitwise_commute = {r1}/{r2} (both argument orders) but the single-qubit factors "
+                            f"{'all commute' if want else 'do not all commute'}", inp)
+            if want and len(commutator(Operator({lp: 1.0}), Operator({lq: 2.0}))) != 0:
+                ctx.witness("commutator", "qubit-wise commuting Pauli strings have a non-zero commutator", inp)
+        except Exception as e:  # noqa: BLE001
+            ctx.witness("raises", f"bsv_bitwise_commute / pauli_label_to_bsv raises {type(e).__name__}: {e}", inp)
+
+
+def forms_fresh_results(ctx: Ctx):
+    """every pure operation returns a new object: updating the result in place never changes an operand (special operands that invite
+    a fast path: empty operators, scalars 0 / 1 / -1, the same object on both sides)"""
+    from quri_parts.core.operator import Operator, commutator
+
+    zero = (_api(ctx, "quri_parts.core.operator", ["zero"]) or [Operator])[0]
+    rng = ctx.rng
+    pool = [0, 1, 2]
+    mark = [(0, 3), (1, 3), (2, 3)]
+    for _ in range(ctx.n(120, 1500)):
+        a, ra = rand_real_op(rng, pool)
+        b, rb = rand_real_op(rng, pool)
+        r = rng.random()
+        if r < 0.25:
+            a, ra = zero(), ref.Ref()
+        elif r < 0.5:
+            b, rb = zero(), ref.Ref()
+        elif r < 0.6:
+            b, rb = a, ra
+        one = rng.choice([1, 1.0, 1 + 0j, True])
+        ops = [
+            ("a+b", lambda: a + b), ("a-b", lambda: a - b), ("a*b", lambda: a * b), ("commutator(a,b)", lambda: commutator(a, b)),
+            ("a*1", lambda: a * one), ("1*a", lambda: one * a), ("a/1", lambda: a / one), ("a*0", lambda: a * 0), ("a*-1", lambda: a * -1),
+            ("a.copy()", lambda: a.copy()), ("a.hermitian_conjugated()", lambda: a.hermitian_conjugated()), ("Operator(a)", lambda: Operator(a)),
+        ]
+        for name, f in ops:
+            da, db = dump_op(a), dump_op(b)
+            inp = {"a": _desc(ra), "b": "a itself" if b is a else _desc(rb), "operation": name, "scalar one": repr(one)}
+            ctx.traces += 1
+            try:
+                res = f()
+                dres = dump_op(res)
+                if res is a or res is b:
+                    ctx.witness("result-aliases-operand", f"{name} returns one of its operands (the same object)", inp)
+                    continue
+                res.add_term(build_label(rng, mark, "set"), 5)
+                res.constant = 9
+                if rng.random() < 0.5:
+                    res += res
+                if dump_op(a) != da or dump_op(b) != db:
+                    ctx.witness("result-aliases-operand", f"updating the result of {name} in place changes an operand", inp,
+                                {"a_before": da, "a_after": dump_op(a), "b_before": db, "b_after": dump_op(b)})
+                    continue
+                # and the other direction: updating an operand afterwards leaves an earlier result alone
+                res2 = f()
+                d2 = dump_op(res2)
+                a.add_term(build_label(rng, mark, "list"), 3)
+                b.add_term(build_label(rng, [(0, 2)], "list"), 1j)
+                if dump_op(res2) != d2 or d2 != dres:
+                    ctx.witness("result-aliases-operand", f"the result of {name} changes when an operand is updated afterwards (or the same call "
+                                "gives two different results)", inp, {"first": dres, "second": d2, "second_after": dump_op(res2)})
+                a.add_term(build_label(rng, mark, "list"), -3)
+                b.add_term(build_label(rng, [(0, 2)], "list"), -1j)
+            except Exception as e:  # noqa: BLE001
+                ctx.witness("raises", f"{name} raises {type(e).__name__}: {e}", inp)
+
+
+def forms_histories(ctx: Ctx):
+    """exports and representations are functions of the CURRENT content: export, update the operator in place, export again;
+    change a returned matrix / representation and export again; the same for label products and bsv"""
+    from quri_parts.core.operator import get_sparse_matrix, pauli_product, transition_amp_comp_basis, transition_amp_representation
+    from quri_parts.core.operator.representation import pauli_label_to_bsv
+
+    rng = ctx.rng
+    nq, pool = 3, [0, 1, 2]
+    fmts = ["csc", "csr", "coo", "lil", "dok", "bsr", "dia"]
+
+    def export_ok(op, r, inp, stage):
+        want = _ref_matrix(r, nq)
+        fmt = rng.choice(fmts)
+        if len(op):
+            arr = (get_sparse_matrix(op, nq, fmt) if rng.random() < 0.7 else get_sparse_matrix(op, n_qubits=nq)).toarray()
+            if [[gauss(v) for v in row] for row in arr.tolist()] != want:
+                ctx.witness("sparse-export", f"get_sparse_matrix ({stage}) differs from the tensor-product matrix of the current terms",
+                            dict(inp, stage=stage, format=fmt))
+        rep = transition_amp_representation(op)
+        got = [[gauss(transition_amp_comp_basis(rep, i, j)) for j in range(8)] for i in range(8)]
+        if got != want:
+            ctx.witness("transition-amp", f"transition amplitudes ({stage}) differ from <m|O|n> of the current terms", dict(inp, stage=stage))
+        return rep
+
+    for _ in range(ctx.n(120, 1500)):
+        op, r = rand_real_op(rng, pool)
+        inp = {"op": _desc(r)}
+        ctx.traces += 1
+        try:
+            rep = export_ok(op, r, inp, "first call")
+            m1 = get_sparse_matrix(op, nq) if len(op) else None
+            steps = []
+            for _ in range(rng.randint(1, 3)):
+                k = rng.random()
+                ps = sorted(rng.choice(sorted(r.keys(), key=sorted))) if r and rng.random() < 0.5 else rand_valid_pairs(rng, pool)
+                c = rand_coef(rng, False)
+                r = ref.Ref(r)
+                if k < 0.4:
+                    op.add_term(build_label(rng, ps, rng.choice(ROUTES)), py_scalar(rng, c))
+                    r.acc(frozenset(ps), c)
+                    steps.append(f"add_term {enc_pairs(ps)} {enc_k(c)}")
+                elif k < 0.6:
+                    op[build_label(rng, ps, rng.choice(ROUTES))] = py_scalar(rng, c)
+                    ref_set(r, ps, c)
+                    steps.append(f"setitem {enc_pairs(ps)} {enc_k(c)}")
+                elif k < 0.75:
+                    op.constant = py_scalar(rng, c)
+                    ref_set(r, [], c)
+                    steps.append(f"constant {enc_k(c)}")
+                elif k < 0.9:
+                    o2, r2 = rand_real_op(rng, pool, 2)
+                    if rng.random() < 0.5:
+                        op += o2
+                        r = r.add(r2)
+                    else:
+                        op -= o2
+                        r = r.add(r2, -1)
+                    steps.append(f"+=/-= {_desc(r2)}")
+                elif r:
+                    l = rng.choice(sorted(r.keys(), key=sorted))
+                    del op[build_label(rng, sorted(l), rng.choice(ROUTES))]
+                    del r[l]
+                    steps.append(f"del {enc_pairs(sorted(l))}")
+            inp2 = dict(inp, updates=steps)
+            export_ok(op, r, inp2, "after in-place updates")
+            # a caller changing what it was handed must not change later answers
+            rep.clear() if rng.random() < 0.5 else [v.clear() for v in rep.values()]
+            if m1 is not None:
+                m1 *= 2
+                m1.data[:] = 7
+            export_ok(op, r, inp2, "after the caller changed the previously returned matrix / representation")
+            # label functions: same arguments, same answers, however often and in whatever order they are asked
+            p, q = rand_valid_pairs(rng, pool + [64]), rand_valid_pairs(rng, pool + [64])
+            lp, lq = build_label(rng, p, rng.choice(ROUTES)), build_label(rng, q, rng.choice(ROUTES))
+            first = (pauli_product(lp, lq), pauli_product(lq, lp), tuple(pauli_label_to_bsv(lp)))
+            again = (pauli_product(lp, lq), pauli_product(lq, lp), tuple(pauli_label_to_bsv(lp)))
+            if first != again or canon_label(lp) != tuple(sorted(p)) or canon_label(lq) != tuple(sorted(q)):
+                ctx.witness("pauli-product", "pauli_product / pauli_label_to_bsv answer differently on the second call or change their arguments",
+                            {"p": p, "q": q})
+        except Exception as e:  # noqa: BLE001
+            ctx.witness("raises", f"export / representation raises {type(e).__name__}: {e}", inp)
+
+
+def forms_big_register(ctx: Ctx):
+    """transition amplitudes and bsv on registers beyond 32 / 64 qubits against the definition of the tensor product"""
+    from quri_parts.core.operator import transition_amp_comp_basis, transition_amp_representation
+    from quri_parts.core.operator.representation import pauli_label_to_bsv
+
+    rng = ctx.rng
+    for _ in range(ctx.n(150, 2000)):
+        pool = rng.choice([[0, 30, 31, 32, 33], [0, 31, 32, 62, 63, 64, 65, 127, 128, 200], [63, 64]])
+        op, r = rand_real_op(rng, pool, 5)
+        if not r:
+            continue
+        inp = {"op": _desc(r)}
+        ctx.traces += 1
+        try:
+            rep = transition_amp_representation(op)
+            for _ in range(4):
+                m = 0
+                for i in pool + [1, 2, 66]:
+                    if rng.random() < 0.5:
+                        m |= 1 << i
+                l = rng.choice(sorted(r.keys(), key=sorted))
+                n = m
+                for i, o in l:
+                    if o in (1, 2):
+                        n ^= 1 << i
+                if rng.random() < 0.2:
+                    n ^= 1 << rng.choice(pool)
+                want = (0, 0)
+                for l2, c in r.items():
+                    want = ref.gadd(want, ref.gmul(c, ref.label_entry(sorted(l2), m, n)))
+                got = gauss(transition_amp_comp_basis(rep, m, n))
+                if got != want:
+                    ctx.witness("transition-amp", "transition_amp_comp_basis differs from <m|O|n> on a large register", dict(inp, m=m, n=n),
+                                {"got": str(got), "want": str(want)})
+            l = rng.choice(sorted(r.keys(), key=sorted))
+            b = pauli_label_to_bsv(build_label(rng, sorted(l), rng.choice(ROUTES)))
+            wx = sum(1 << i for i, o in l if o in (1, 2))
+            wz = sum(1 << i for i, o in l if o in (2, 3))
+            ny = sum(1 for _, o in l if o == 2)
+            if (int(b.x), int(b.z)) != (wx, wz) or gauss(b.phase) != ref.I_UNIT[(3 * ny) % 4]:
+                ctx.witness("bsv", "pauli_label_to_bsv: x / z bit masks or the phase (-i)^#Y are wrong", {"pairs": sorted(l)},
+                            {"got": [int(b.x), int(b.z), str(b.phase)], "want": [wx, wz, str(ref.I_UNIT[(3 * ny) % 4])]})
+        except Exception as e:  # noqa: BLE001
+            ctx.witness("raises", f"transition amplitude / bsv raises {type(e).__name__}: {e}", inp)
+
+
+def forms_trotter(ctx: Ctx):
+    """Trotter-Suzuki lists of every order against the documented recursion S_2, S_2k evaluated on matrices (floating point, relative
+    tolerance): the product of the listed exponentials must be S_2k(param)"""
+    import numpy as np
+
+    from quri_parts.core.operator import Operator, trotter_suzuki_decomposition
+
+    rng = ctx.rng
+    nq = 2
+    dim = 1 << nq
+
+    def pm(pairs):
+        return np.array([[complex(*v) for v in row] for row in ref.op_matrix([(tuple(sorted(pairs)), (1, 0))], nq)])
+
+    def expo(c, P):  # P*P = 1
+        return np.cosh(c) * np.eye(dim) + np.sinh(c) * P
+
+    def s2(terms, x):
+        m = np.eye(dim, dtype=complex)
+        for P, c in terms:
+            m = m @ expo(c * x / 2, P)
+        for P, c in terms[::-1]:
+            m = m @ expo(c * x / 2, P)
+        return m
+
+    def s2k(terms, x, k):
+        if k == 1:
+            return s2(terms, x)
+        pk = 1 / (4 - 4 ** (1 / (2 * k - 1)))
+        a = s2k(terms, pk * x, k - 1)
+        return a @ a @ s2k(terms, (1 - 4 * pk) * x, k - 1) @ a @ a
+
+    for _ in range(ctx.n(200, 2500)):
+        items = {}
+        for _ in range(rng.choice([0, 1, 1, 2, 2, 3, 3, 4])):
+            items[tuple(sorted(rand_valid_pairs(rng, [0, 1])))] = rand_coef(rng, False)
+        order_items = list(items.items())
+        op = Operator()
+        for l, c in order_items:
+            op[build_label(rng, list(l), rng.choice(ROUTES))] = py_scalar(rng, c)
+        param = rng.choice([0.125, -0.25, 0.1j, 0.0625 + 0.125j, 1, 0.5])
+        big = max([abs(complex(*c)) for _, c in order_items] + [1])
+        if abs(param) * big > 1.5:
+            param = param / 8
+        order = rng.choice([1, 1, 2, 2, 3, 4] if len(items) <= 3 else [1, 2, 2, 3])
+        inp = {"op": enc_items([(list(l), c) for l, c in order_items]), "param": repr(param), "order": order}
+        ctx.traces += 1
+        ctx.count("trotter_cases", f"order={order} terms={len(items)}")
+        try:
+            lst = trotter_suzuki_decomposition(op, param, order)
+        except Exception as e:  # noqa: BLE001
+            ctx.witness("trotter", f"decomposition raises {type(e).__name__}: {e}", inp)
+            continue
+        try:
+            terms = [(pm(l), complex(*c)) for l, c in order_items]
+            want = s2k(terms, complex(param), order) if terms else np.eye(dim, dtype=complex)
+            got = np.eye(dim, dtype=complex)
+            known = {l for l, _ in order_items}
+            for e in lst:
+                if canon_label(e.pauli) not in known:
+                    raise ValueError(f"exponent of a Pauli string that is not a term of the operator: {e.pauli}")
+                got = got @ expo(complex(e.coefficient), pm(canon_label(e.pauli)))
+            scale = max(1.0, float(np.abs(want).max()), float(np.abs(got).max()))
+            if not np.allclose(got, want, rtol=0, atol=1e-9 * scale):
+                ctx.witness("trotter", "the product of the listed exponentials differs from the documented S_2k(param)", inp,
+                            {"max_abs_difference": float(np.abs(got - want).max()), "n_exponentials": len(lst)})
+        except Exception as e:  # noqa: BLE001
+            ctx.witness("trotter", f"the returned list cannot be evaluated: {type(e).__name__}: {e}", inp)
+
+
+def check_forms(ctx: Ctx):
+    for name, fn in [("operands", forms_operands), ("errors", forms_errors), ("accessors", forms_accessors), ("predicates", forms_predicates),
+                     ("operator_str", forms_operator_str), ("commute", forms_commute), ("fresh_results", forms_fresh_results),
+                     ("histories", forms_histories), ("big_register", forms_big_register), ("trotter", forms_trotter)]:
+        _section(ctx, name, fn)
+
+
+# ---------------------------------------------------------------------------
 PROP_MODULES = ["QuriVerif.Props.C05"]
 OBL_MODULES = ["QuriVerif.Props.C05", "QuriVerif.Generated.C05Tables"]
 
@@ -1244,6 +1939,9 @@ def run(ctx: Ctx, replay=None) -> int:
         "cases = one request to the Lean model with the real code run on the same input: label constructions (9 routes), parser inputs "
         "(well-formed, mutated, malformed), label products, bsv, operator programs (random histories of new/+/-/*/scalar*/÷/herm/commutator/"
         "copy/+=/-=/÷=/add_term/constant/setitem over a heap, incl. aliasing), sparse exports and transition amplitudes (all entries); "
+        "plus oracle-judged runs of the real code alone (non-operator operands, documented rejections, label accessors, is_ops_close / "
+        "is_hermitian / truncate, str(op), bsv_bitwise_commute, freshness of results, export-update-export histories, registers beyond "
+        "64 qubits, Trotter-Suzuki lists of order 1-4 against the documented recursion); "
         "distinct = distinct canonical request; compared: order-sensitive dict dumps, strings, error kinds, every matrix entry (exact integers)"
     )
     ctx.trusted = TRUSTED
@@ -1282,6 +1980,7 @@ def run(ctx: Ctx, replay=None) -> int:
             resp = ctx.driver(reqs, entry=ENTRY)
             compare_simple(ctx, metas, resp)
             check_trotter(ctx)
+    check_forms(ctx)
     with ctx.timed("oracle_validation"):
         broken = (not ok) or bool(ctx.disagreements)
         validate(ctx, (10 if ctx.quick() else 180) * (4 if broken else 1))
